@@ -254,7 +254,7 @@ func c14Body(e *Env) {
 
 	// --- crash images inside the size-changing open
 	if logEnd > logStart {
-		plan := CrashPlan{From: 0, MaxExh: 5, NRandom: 6, PageSize: ps, Tear: true, Rng: e.Rng("crash"), Only: c.Crash, Stop: e.Failed}
+		plan := CrashPlan{From: 0, MaxExh: 5, NRandom: 6, PageSize: ps, Tear: true, Rng: e.Rng("crash"), Only: c.Crash, Stop: func() bool { return e.Failed() || outOfTime() }}
 		seg := d.Log[logStart:logEnd]
 		cur := r.Cur()
 		n := 0
